@@ -254,7 +254,7 @@ pub fn run() -> Report {
 /// "... a function of the data directory and the options only": the same directory and options named in different ways and
 /// run in different process environments. Full product callback (5) x range {whole, -s 1 -e 2} x --verify {off, on} x path
 /// form (absolute / relative / trailing slash / dot components / symbolic links / cwd inside the data directory) x environment
-/// (plain, RAYON_NUM_THREADS unset, a non-English UTF-8 locale with TZ set, a long unrelated argument-free environment).
+/// (plain, RAYON_NUM_THREADS unset, a non-English UTF-8 locale with TZ set, logging-related variables, directory listings served in reversed / rotated order).
 /// Compared with the absolute-path plain-environment run: exit status, every file of the dump folder, and the
 /// simplestats / opreturn output (log lines that print a path are dropped).
 fn invocation_forms(rep: &mut Report, root: &std::path::Path) {
@@ -280,6 +280,8 @@ fn invocation_forms(rep: &mut Report, root: &std::path::Path) {
         ("RAYON_NUM_THREADS unset", vec![], 0),
         ("tr_TR locale, TZ", vec![("LC_ALL", "tr_TR.UTF-8"), ("LANG", "tr_TR.UTF-8"), ("TZ", "Pacific/Kiritimati")], 2),
         ("RUST_LOG and COLUMNS set", vec![("RUST_LOG", "trace"), ("COLUMNS", "20"), ("NO_COLOR", "1"), ("TERM", "dumb")], 2),
+        ("directory listings reversed", vec![("VERIF_READDIR", "1")], 2),
+        ("directory listings rotated", vec![("VERIF_READDIR", "3")], 2),
     ];
     let parts = par_fold(
         &cases,
